@@ -23,6 +23,7 @@ use crate::ast::PrefixOperator;
 use crate::env::Env;
 use crate::token::Term;
 use crate::token::Value;
+use crate::token::parse_integer_constant;
 use std::ops::Range;
 use thiserror::Error;
 
@@ -75,6 +76,22 @@ pub struct Error<E1, E2> {
     pub location: Range<usize>,
 }
 
+/// Parses the value of a variable as an integer.
+///
+/// A value that has the form of an integer constant denotes that constant, so
+/// that a variable in an expression evaluates to the same value as its value
+/// written in place of it: `010` is octal and `0x10` is hexadecimal. Any other
+/// value is parsed as an optionally signed decimal integer.
+fn parse_variable_value(value: &str) -> Result<i64, std::num::ParseIntError> {
+    let is_constant = value.starts_with(|c: char| c.is_ascii_digit())
+        && value.chars().all(|c| c.is_alphanumeric() || c == '_');
+    if is_constant {
+        parse_integer_constant(value)
+    } else {
+        value.parse()
+    }
+}
+
 /// Expands a variable to its value.
 fn expand_variable<E: Env>(
     name: &str,
@@ -83,8 +100,8 @@ fn expand_variable<E: Env>(
 ) -> Result<Value, Error<E::GetVariableError, E::AssignVariableError>> {
     match env.get_variable(name) {
         Ok(None) => Ok(Value::Integer(0)),
-        // TODO Parse non-decimal integer and float
-        Ok(Some(value)) => match value.parse() {
+        // TODO Parse float
+        Ok(Some(value)) => match parse_variable_value(value) {
             Ok(number) => Ok(Value::Integer(number)),
             Err(_) => Err(Error {
                 cause: EvalError::InvalidVariableValue(value.to_string()),
